@@ -1,4 +1,5 @@
 import LoguruModel.Context.Model
+import LoguruModel.Context.Heap
 import LoguruModel.Driver
 open Context Py
 
@@ -12,11 +13,14 @@ open Context Py
 abbrev A := Assoc Nat Nat
 abbrev Pt := Nat × Nat × Nat × Nat   -- patcher: (id, key, value, mode)
 
-/-- mode 0: `extra[key] = value` (idempotent); mode 1: `extra[key] = extra.get(key, 0) + value`
+/-- mode even: `extra[key] = value` (idempotent); mode odd: `extra[key] = extra.get(key, 0) + value`
 (not idempotent: running it twice shows) -/
 def papply (p : Pt) (x : A) : A :=
-  if p.2.2.2 = 0 then merge x [(p.2.1, p.2.2.1)]
+  if p.2.2.2 % 2 = 0 then merge x [(p.2.1, p.2.2.1)]
   else merge x [(p.2.1, (get? x p.2.1).getD 0 + p.2.2.1)]
+
+/-- `bool(patcher)`: modes 2 and 3 are the set / add patchers whose object is falsy (`__bool__` / `__len__`) -/
+def ptruthy (p : Pt) : Bool := p.2.2.2 < 2
 
 def parseKw (s : String) : Option A :=
   if s = "_" then some [] else
@@ -127,18 +131,76 @@ def cvStep (st : CvSt) (tok : String) : Option (CvSt × String) :=
     | _, _ => none
   | _ => none
 
+
+/-! object-level programmes (Context/Heap.lean): `hprog <op> …`
+  c:a:kw            the caller builds a dict          c:C:i     configure(extra=<i-th dict the caller built>)
+  c:B:l:kw          bind                              c:O:l:cap opt()/patch(): shares the receiver's extra object
+  c:E:kw  c:X  c:S:copy                               c:L:l:kw:p;p;…  logging call, patcher chain (id,key,value,mode)
+  c:M:o<i>|r<j>:set,k,v|del,k|clear                   the caller mutates its i-th dict / the j-th record's extra
+    -> K:<core.extra> | L:<bound extra of every logger> | R:<extra of every record> -/
+open Context.Heap in
+def parseHOp (s : HState Nat Nat) (tok : String) : Option (Nat × HOp Nat Nat) :=
+  match tok.splitOn ":" with
+  | c :: rest =>
+    match c.toNat? with
+    | none => none
+    | some c =>
+      (match rest with
+      | ["a", kw] => (parseKw kw).map HOp.alloc
+      | ["C", i] => i.toNat?.map (fun i => HOp.configure (s.owned.getD i s.heap.length))
+      | ["B", l, kw] => match l.toNat?, parseKw kw with
+        | some l, some kw => some (HOp.bind l kw []) | _, _ => none
+      | ["O", l, cap] => match l.toNat?, parseBool cap with
+        | some l, some cap => some (HOp.opt l cap) | _, _ => none
+      | ["E", kw] => (parseKw kw).map (fun kw => HOp.enter kw [])
+      | ["X"] => some HOp.exit
+      | ["S", b] => (parseBool b).map HOp.spawn
+      | ["L", l, kw, ps] =>
+        let chain : Option (List Pt) := if ps = "_" then some [] else parseAll parsePt (ps.splitOn ";")
+        match l.toNat?, parseKw kw, chain with
+        | some l, some kw, some chain => some (HOp.log l kw (fun x => chain.foldl (fun acc p => papply p acc) x) [])
+        | _, _, _ => none
+      | ["M", tgt, how] =>
+        let r : Option Nat :=
+          if tgt.startsWith "o" then (tgt.drop 1).toNat?.map (fun i => s.owned.getD i s.heap.length)
+          else if tgt.startsWith "r" then (tgt.drop 1).toNat?.map (fun j => s.records.getD j s.heap.length)
+          else none
+        let f : Option (A → A) := match how.splitOn "," with
+          | ["set", k, v] => match k.toNat?, v.toNat? with
+            | some k, some v => some (fun x => merge x [(k, v)]) | _, _ => none
+          | ["del", k] => k.toNat?.map (fun k => fun x => x.filter (fun kv => kv.1 ≠ k))
+          | ["clear"] => some (fun _ => [])
+          | _ => none
+        match r, f with
+        | some r, some f => some (HOp.mutate r f) | _, _ => none
+      | _ => none).map (fun op => (c, op))
+  | _ => none
+
+open Context.Heap in
+def runH (toks : List String) : Option (HState Nat Nat) :=
+  toks.foldl (fun acc t => match acc with
+    | none => none
+    | some s => (parseHOp s t).map (fun e => hstep s e.1 e.2)) (some hinit)
+
 def step (line : String) : String :=
   match line.splitOn " " with
   | "prog" :: toks =>
     match parseAll parseOp (toks.filter (· ≠ "")) with
     | none => "bad-op"
     | some ops =>
-      let s := run papply (init : State Nat Nat Pt) ops
+      let s := run papply (initT ptruthy : State Nat Nat Pt) ops
       let ev := " ".intercalate (s.out.map showEvent)
       let lg := " ".intercalate (s.loggers.map showOpts)
       let vs := " ".intercalate ((List.range s.cv.n).map (fun c =>
         "v:" ++ (match ContextVars.get s.cv c with | some a => showKw a | none => "-")))
       ev ++ " | " ++ lg ++ " | " ++ vs
+  | "hprog" :: toks =>
+    match runH (toks.filter (· ≠ "")) with
+    | none => "bad-op"
+    | some s =>
+      "K:" ++ showKw (Heap.cell s.heap s.core) ++ " | " ++
+      " ".intercalate (s.loggers.map (fun p => "L:" ++ showKw (Heap.cell s.heap p.2))) ++ " | " ++
+      " ".intercalate (s.records.map (fun r => "R:" ++ showKw (Heap.cell s.heap r)))
   | "cv" :: toks =>
     let r := (toks.filter (· ≠ "")).foldl (fun acc t => match acc with
       | none => none
